@@ -503,6 +503,69 @@ func runC08(c *engine.Ctx) {
 	checkStacks(c, "R6")
 	// ---- R7 pooled codec recycling (shared with C01.R8): a visitor stream handed to the proxy's listener outlives NewConn ----
 	checkRecycle(c, "R7")
+	// ---- R8 (shared with C16.R22) ----
+	checkThrowawayBufio(c, "R8")
+	// ---- R9 ----
+	checkCloseOnRefusal(c, "R9", "RegisterVisitorConn")
+}
+
+// checkCloseOnRefusal (C08.R9; the same obligation for work connections is C04.R3 / C11.R8): whichever function hands a
+// fresh connection to Service.<reg> closes that very connection on every path where the registration returned an error
+// (or where the result was not tested) — a refused visitor or work connection is never left open without a peer.
+func checkCloseOnRefusal(c *engine.Ctx, rule string, reg string) {
+	c.Rule(rule, "the function that hands a fresh connection to Service."+reg+" closes that connection on every path on which the registration was refused, clean-ups written as deferred closures included")
+	p := c.P
+	obj := method(c, "server", "Service", reg)
+	if obj == nil {
+		return
+	}
+	hosts := 0
+	for _, hc := range p.RepoFuncs() {
+		hc := hc
+		for _, call := range engine.CallsTo(hc, obj) {
+			hosts++
+			cv := call.Value()
+			connArg := engine.Unwrap(engine.CallArgs(call)[1])
+			c.AllPaths(p.FuncName(hc)+">close-on-refusal", engine.PathCheck{Fn: hc, From: call, Sink: engine.IsReturn,
+				Event: func(in ssa.Instruction) string {
+					cc, ok := in.(ssa.CallInstruction)
+					if !ok {
+						return ""
+					}
+					if o := engine.CalleeObj(cc); o == nil || o.Name() != "Close" {
+						return ""
+					}
+					a := engine.CallArgs(cc)
+					if len(a) == 0 {
+						return ""
+					}
+					x := engine.Unwrap(a[0])
+					if fv, ok := x.(*ssa.FreeVar); ok {
+						if b := engine.ClosureBinding(fv); b != nil {
+							x = engine.Unwrap(b)
+						}
+					}
+					if engine.SameValue(x, connArg) {
+						return "close"
+					}
+					return ""
+				},
+				Pred: func(st *engine.PathState) string {
+					isNil, known := st.IsNil(func(v ssa.Value) bool { return v == cv })
+					if known && isNil {
+						return ""
+					}
+					if !st.HasEvent("close") {
+						return "after " + reg + " returned an error (or unchecked) the connection is not closed on this path"
+					}
+					return ""
+				}}, "connection closed whenever "+reg+" returns non-nil")
+		}
+	}
+	if hosts == 0 {
+		c.Undecide("server.Service."+reg+">caller", token.NoPos, "nothing calls Service."+reg+" any more")
+	}
+	c.Floor(hosts, 1)
 }
 
 // allAnon returns the functions that belong to f besides f itself: its closures, the functions and methods it uses as
